@@ -41,3 +41,44 @@ def extract_block(prog, qname: str, new_name: str, start_pred, n_stmts_pred, par
     prog.synthetic.add(q)     # a copy of statements that are scanned in place, inside the function they come from
     prog.sources[mod + "$" + new_name] = "\n".join(ast.unparse(s) for s in found)
     return q, [ast.unparse(s) for s in found]
+
+
+def extract_loop_body(prog, qname: str, new_name: str, loop_pred, params: list[str]):
+    """The body of the first `for` loop of `qname` satisfying `loop_pred`, as a function of one iteration.
+
+    The statements are deep copies of the current AST.  The only rewriting is the one that turns "one iteration of a loop"
+    into "one call": a `continue` / `break` that belongs to THIS loop (not to a loop nested inside it) becomes
+    `return 'continue'` / `return 'break'`, and falling off the end becomes `return 'next'`.  The loop variable is a parameter."""
+    fn = prog.func(qname)
+    target = None
+    for node in ast.walk(fn):
+        if isinstance(node, ast.For) and loop_pred(node):
+            target = node
+            break
+    if target is None:
+        raise KeyError(f"extraction from {qname}: loop not found (contract attachment lost)")
+
+    class T(ast.NodeTransformer):
+        def visit_For(self, n):
+            return n          # a nested loop keeps its own break/continue
+        def visit_While(self, n):
+            return n
+        def visit_FunctionDef(self, n):
+            return n
+        def visit_Continue(self, n):
+            return ast.copy_location(ast.Return(value=ast.Constant(value="continue")), n)
+        def visit_Break(self, n):
+            return ast.copy_location(ast.Return(value=ast.Constant(value="break")), n)
+
+    body = [T().visit(copy.deepcopy(s)) for s in target.body] + [ast.Return(value=ast.Constant(value="next"))]
+    f = ast.FunctionDef(name=new_name, args=ast.arguments(posonlyargs=[], args=[ast.arg(arg=p) for p in params], kwonlyargs=[],
+                                                          kw_defaults=[], defaults=[]), body=body, decorator_list=[], type_params=[])
+    ast.fix_missing_locations(f)
+    mod = qname.split(":")[0]
+    q = f"{mod}:{new_name}"
+    prog.funcs[q] = f
+    if not hasattr(prog, "synthetic"):
+        prog.synthetic = set()
+    prog.synthetic.add(q)
+    prog.sources[mod + "$" + new_name] = "\n".join(ast.unparse(s) for s in target.body)
+    return q, [ast.unparse(s) for s in target.body]
